@@ -11,6 +11,9 @@ P = {
  "C05": dict(level="proof", tech="same page summaries; comparison with the documented region table ref/mapper_regions.json, class windows, console regions, error shape",
    text="Page summaries (sound abstract interpretation, exhaustive over 2^24 x 2 x 4) are compared with the hand-authored documented region table and the class windows; uniformity of every page proves byte order is preserved inside 8 KiB pages in both directions.",
    note="Trusted: as C04, plus ref/mapper_regions.json being the documented map (bus->pak half only; pak->bus is constrained through C04, uniformity, error shape and the rejection window).", ref="4 C05"),
+ "C03": dict(level="proof", tech="abstract interpretation with bit provenance of all 90 instruction methods in 16 width/target/listing cells; comparison with the independently authored opcode matrix ref/isa65816.json",
+   text="Each emitting method is interpreted with every operand bit symbolic, so the verdict on opcode byte, little-endian operand bytes, length, address/n advance and width guard holds for every operand value and every tracked-width state; the opcode/mode/length oracle is an independent transcription of the WDC opcode matrix. All 90 methods x 16 cells are covered, nothing is sampled.",
+   note="Trusted: go/ssa, absint transfer functions, ref/isa65816.json, the method-name grammar of DESIGN appendix B, Go's copy builtin. 'Decodes back with the library's own CPU' is covered by table agreement (cpu-agree) plus C01/decode and C07/length.", ref="4 C03"),
 }
 reasons_pending = "no check is registered for this property at this commit (machinery not built yet); see DESIGN.md section 4 for the planned static rules"
 
